@@ -308,6 +308,59 @@ def oracle(ctx, t, r, ever, desc):
             bad('density', '%r vs %r' % (t.get_table_density(), ref))
     checks.append(c_nnz)
 
+    def c_indexing():
+        # positional indexing: single cells and whole rows / columns
+        cells = [(r.randrange(n), r.randrange(m)) for _ in range(12)] \
+            if n * m > 12 else [(a, b) for a in range(n) for b in range(m)]
+        for a, b in cells:
+            v = t[a, b]
+            if not snap.bits_equal([v], [D[a, b]]):
+                bad('getitem-cell', 't[%d,%d]=%r, matrix says %r' %
+                    (a, b, float(v), float(D[a, b])))
+        a, b = r.randrange(n), r.randrange(m)
+        row = np.asarray(t[a, :].toarray()).reshape(-1)
+        col = np.asarray(t[:, b].toarray()).reshape(-1)
+        if not snap.bits_equal(row, D[a, :]):
+            bad('getitem-row', 't[%d,:]=%r' % (a, row.tolist()))
+        if not snap.bits_equal(col, D[:, b]):
+            bad('getitem-column', 't[:,%d]=%r' % (b, col.tolist()))
+        # negative positions count from the end, as for any sequence
+        if not snap.bits_equal([t[-1, -1]], [D[-1, -1]]):
+            bad('getitem-cell', 't[-1,-1]=%r, matrix says %r' %
+                (float(t[-1, -1]), float(D[-1, -1])))
+    if n and m:
+        checks.append(c_indexing)
+
+    def c_misc():
+        if tuple(t.shape) != (n, m):
+            bad('shape', 'shape %r' % (t.shape,))
+        if t.length('observation') != n or t.length('sample') != m or \
+                t.length() != m:
+            bad('length', 'length() says %r/%r' % (t.length('observation'),
+                                                  t.length('sample')))
+        if t.is_empty() != (n == 0 or m == 0):
+            bad('is_empty', 'is_empty()=%r for shape %r' % (t.is_empty(),
+                                                           (n, m)))
+        if n and m:
+            got = [(str(i), np.asarray(v).reshape(-1)) for v, i, _ in t]
+            if [g[0] for g in got] != samp or any(
+                    not snap.bits_equal(g[1], D[:, k])
+                    for k, g in enumerate(got)):
+                bad('dunder-iter', 'iterating the table itself gives %r' %
+                    ([g[0] for g in got],))
+        rp = repr(t)
+        if not rp.startswith('%d x %d ' % (n, m)) or \
+                ('with %d nonzero' % np.count_nonzero(D)) not in rp:
+            bad('repr', 'repr says %r for a %dx%d table with %d non-zero '
+                'cells' % (rp, n, m, np.count_nonzero(D)))
+        for ax in ids:
+            nzc = t.nonzero_counts(ax)
+            ref = (D != 0).sum(axis=1 if ax == 'observation' else 0)
+            if list(np.asarray(nzc).reshape(-1)) != list(ref):
+                bad('nonzero_counts', '%s: %r vs %r' % (ax, list(nzc),
+                                                        list(ref)))
+    checks.append(c_misc)
+
     r.shuffle(checks)
     for c in checks:
         c()
